@@ -45,7 +45,25 @@ Record dev := mkDev {
 
 Definition store := list dev.   (* newest first *)
 
-Inductive fault := FNone | FDeadline | FError.
+(* the error VALUE a failing GetDeviceAuthorizatonState returns, as far as
+   errors.Is / errors.As see it: a chain of wrappers down to a leaf *)
+Inductive errv :=
+| EDeadline                                   (* context.DeadlineExceeded *)
+| ECanceled                                   (* context.Canceled *)
+| EPlain                                      (* any other leaf (errors.New, fmt.Errorf without %w) *)
+| EWrap (e : errv)                            (* fmt.Errorf("...: %w", e) *)
+| EOidc (ty : string) (parent : option errv). (* *oidc.Error of that type with that Parent (Unwrap = Parent) *)
+
+(* errors.Is(err, context.DeadlineExceeded): somewhere down the Unwrap chain *)
+Fixpoint is_deadline (e : errv) : bool :=
+  match e with
+  | EDeadline => true
+  | EWrap e' => is_deadline e'
+  | EOidc _ (Some p) => is_deadline p
+  | _ => false
+  end.
+
+Inductive fault := FNone | FFail (e : errv).
 
 Inductive op :=
 | OpAuthz (r : router) (cr : creds) (scopes : list string) (now : Z) (life : Z) (rnd : list nat)
@@ -206,8 +224,7 @@ Definition create (g : cfg) (st : store) (cid : string) (scopes : list string)
 (* ---- CheckDeviceAuthorizationState: ordering exactly as coded ---------- *)
 Definition check_state (st : store) (cid dc : string) (now : Z) (f : fault) : dev + string :=
   match f with
-  | FDeadline => inr "slow_down"
-  | FError => inr "access_denied"
+  | FFail e => if is_deadline e then inr "slow_down" else inr "access_denied"
   | FNone =>
       match get_dev st cid dc with
       | None => inr "access_denied"
